@@ -75,7 +75,15 @@ def view(engine, st, v):
         return ExtView(v.ninf, v.v)
     if isinstance(v, VTuple):
         return tuple(view(engine, st, i) for i in v.items)
+    if isinstance(v, VIter):
+        l, pos = st.iters[v.iid]
+        return IterView(pos, ListView(engine, st, l))
     return v
+
+
+class IterView:
+    def __init__(self, pos, lst):
+        self.pos, self.list = pos, lst
 
 
 class ListView:
@@ -159,6 +167,10 @@ class Ctx:
     def set(self, name, value):
         """ghost assignment (only meaningful inside ghost_at handlers)"""
         self._e.ghost_set(self._st, name, value)
+
+    def assert_(self, name, cond, site='ghost'):
+        """ghost assertion: an obligation at the current program point"""
+        self._e.check(self._st, cond, f"ghost_assert[{site}]::{name}", 'ghost-assert')
 
 
 def forall(vars_, body, pats=None):
